@@ -558,7 +558,33 @@ func vfC14Run(c vfC14Case, ctx *vfCtx) *vfViolation {
 				}
 				sets, _, ok := vfProbeSets(cd, op.NP, 64)
 				if !ok {
-					ctx.Class("partial_tie_ambiguous(skipped)")
+					// too many tie resolutions to enumerate: every hit is still a live vector with the score
+					// its code defines, once, in order, at most k of them
+					ctx.Class("partial_tie_ambiguous(validity only)")
+					byID := map[uint32]vfCand{}
+					for _, cnd := range candsIn(func(uint32) bool { return true }) {
+						byID[cnd.ID] = cnd
+					}
+					seenTie := map[uint32]bool{}
+					for r, h := range hits {
+						cnd, in := byID[h.ID]
+						if !in {
+							return vfFail("op %d partial probe: id %d is not an eligible live vector", i, h.ID)
+						}
+						if d := float64(h.Score) - cnd.Want; d > cnd.Tol || -d > cnd.Tol {
+							return vfFail("op %d partial probe: id %d score %v, its code defines %v", i, h.ID, h.Score, cnd.Want)
+						}
+						if seenTie[h.ID] {
+							return vfFail("op %d partial probe: id %d returned twice", i, h.ID)
+						}
+						seenTie[h.ID] = true
+						if r > 0 && hits[r-1].Score > h.Score {
+							return vfFail("op %d partial probe: results out of order at rank %d", i, r)
+						}
+					}
+					if op.K > 0 && len(hits) > op.K {
+						return vfFail("op %d partial probe: %d results for k=%d", i, len(hits), op.K)
+					}
 					continue
 				}
 				var first *vfViolation
